@@ -483,7 +483,9 @@ class Sym:
                 if cv == v: tgt = d
             return [('br', st, tgt)]
         elif op == 'extractvalue':
-            ty = p.type(); v = s.val(p, ty, st); raise Unsupported('extractvalue')
+            ty = p.type(); v = s.val(p, ty, st); p.expect(','); k = int(p.next()[1])
+            if isinstance(v, tuple) and v and v[0] == 'aggv': env[ins.res] = v[1][k]      # aggregate returned by a call model (e.g. complex libm)
+            else: raise Unsupported('extractvalue')
         elif op in ('call', 'invoke'):
             while p.peek()[1] in FN_KW or p.peek()[1] in PARAM_ATTRS or p.peek()[1] in PARAM_ATTRS_ARG:
                 if p.peek()[1] in PARAM_ATTRS_ARG:
@@ -570,6 +572,9 @@ class Sym:
             base = nm.split('.')[1]
         elif nm.endswith('f') and nm[:-1] in ('sin', 'cos', 'tan', 'atan2', 'acos', 'asin', 'atan', 'sqrt', 'fabs', 'exp', 'log', 'pow', 'cbrt', 'fmod', 'floor', 'ceil'):
             base = nm[:-1]
+        if nm in s.calls or base in s.calls:      # obligation-supplied model takes precedence over the built-in treatment
+            r = s.calls[nm if nm in s.calls else base](s, st, args)
+            setr(r); return None
         if nm.startswith('llvm.memset'):
             b = args[0]; n = args[2]
             if not isinstance(n, int) or args[1] != 0: raise Unsupported('memset')
